@@ -3,7 +3,7 @@ From Coq Require Import Ascii String List Bool Arith ZArith NArith Lia.
 From PTBase Require Import Exn PyStr PyNum PyVal.
 From PTModel Require Import Fortran FortranNF FortranRender.
 From Gen Require Import GenFortran.
-From P Require Import Spec.
+From P Require Import Spec Blanks IntRender Styles.
 Import ListNotations.
 Open Scope char_scope.
 
@@ -41,7 +41,51 @@ Lemma ff_renderings s bv sg ip fp x : wf_mant ip fp -> wf_expo x -> strip s <> [
   norm (strip s) = canon sg ip fp x -> gen_fortran_float (VStr s) bv = Ok (VFloat (canon_value sg ip fp x)).
 Proof. intros W Wx NE E. rewrite gen_fortran_float_spec, (ff_reads_fortran_reals s bv sg ip fp x W Wx NE E). reflexivity. Qed.
 
+(** overflow asterisks: corollaries of the bad-character theorems *)
+Lemma ff_stars s bv : In "*" s -> gen_fortran_float (VStr s) bv = Ok (VFloat NaN).
+Proof. intro I. rewrite gen_fortran_float_spec, (ff_asterisks _ _ I). reflexivity. Qed.
+Lemma fi_stars s bv : In "*" s -> gen_fortran_int (VStr s) bv = Ok VNone.
+Proof. intro I. rewrite gen_fortran_int_spec, (fi_asterisks _ _ I). reflexivity. Qed.
+
+(** the integer reader: normal form and renderings *)
+Lemma fi_nf s bv : strip s <> [] -> gen_fortran_int (VStr s) bv = Ok (int_of (inorm s)).
+Proof. intro H. rewrite gen_fortran_int_spec, (fi_normal_form _ _ H). reflexivity. Qed.
+Lemma fi_norm_only s s' bv : strip s <> [] -> strip s' <> [] -> inorm s = inorm s' ->
+  gen_fortran_int (VStr s) bv = gen_fortran_int (VStr s') bv.
+Proof. intros H H' E. rewrite !fi_nf by assumption. rewrite E. reflexivity. Qed.
+Lemma fi_digits s bv sg ds : ds <> [] -> all_digits ds = true -> unblank s = (sgstr sg ++ ds)%list ->
+  gen_fortran_int (VStr s) bv = Ok (VInt (signed (isneg sg) (dvalue 0 ds))).
+Proof. intros NE A E. rewrite gen_fortran_int_spec, (fi_reads_digits s bv sg ds NE A E). reflexivity. Qed.
+Lemma fi_render z plus m gaps bv : gen_fortran_int (VStr (render_int z plus m gaps)) bv = Ok (VInt z).
+Proof. rewrite gen_fortran_int_spec, fi_rendering. reflexivity. Qed.
+
+(** the real reader on the printed text of a real, in every style *)
+Definition gen_reads_back (bv : pyval) (st : style) (x : freal) : Prop :=
+  gen_fortran_float (VStr (render st x)) bv = Ok (VFloat (real_value x)).
+Lemma ff_style st x bv : wf_real x -> style_ok st x -> gen_reads_back bv st x.
+Proof. intros W OK. unfold gen_reads_back. rewrite gen_fortran_float_spec, (ff_every_style st x W bv OK). reflexivity. Qed.
+Lemma ff_catalogue bv x g : wf_real x ->
+  gen_reads_back bv (st_E g) x /\ gen_reads_back bv (st_D g) x /\ gen_reads_back bv (st_lower_e g) x /\
+  gen_reads_back bv (st_lower_d g) x /\ gen_reads_back bv (st_point g) x /\ gen_reads_back bv (st_explicit_plus g) x /\
+  gen_reads_back bv (st_dropped g) x /\ gen_reads_back bv (st_blank_plus g) x /\ gen_reads_back bv (st_ES g) x /\
+  (forall k, style_ok (st_F k g) x -> gen_reads_back bv (st_F k g) x).
+Proof. intro W. repeat split; try (apply ff_style; try exact W; exact I). intros k OK. apply ff_style; assumption. Qed.
+(** the digit strings the renderings use are decimal notation *)
+Lemma decimal_digits n : all_digits (n_to_str n) = true /\ n_to_str n <> [] /\ dvalue 0 (n_to_str n) = n.
+Proof. split; [apply n_to_str_digits|]. split; [apply n_to_str_nonempty|apply n_to_str_value]. Qed.
+(** [dvalue] is positional notation (Horner): appending a digit multiplies by ten and adds it *)
+Lemma dvalue_snoc ds c : dvalue 0 (ds ++ [c])%list = (dvalue 0 ds * 10 + ndval c)%N.
+Proof. rewrite dvalue_app. reflexivity. Qed.
+
 (** non-vacuity: concrete strings meeting the hypotheses *)
+Example ex_int_digits : s2l "12" <> [] /\ all_digits (s2l "12") = true /\ unblank (s2l " - 1 2 ") = (sgstr (Some true) ++ s2l "12")%list.
+Proof. repeat split; try discriminate; reflexivity. Qed.
+Example ex_int_nf : strip (s2l " 1 2") <> [] /\ strip (s2l "12  ") <> [] /\ inorm (s2l " 1 2") = inorm (s2l "12  ").
+Proof. repeat split; try (vm_compute; discriminate); reflexivity. Qed.
+Example ex_int_accept : py_int_opt (s2l " -12 ") = Some (-12)%Z /\ inorm (s2l " -12 ") = s2l "-12".
+Proof. split; reflexivity. Qed.
+Example ex_style : wf_real x1 /\ style_ok (st_dropped [3%nat]) x1 /\ style_ok (st_F 2 []) {| rneg := false; rdigs := s2l "1234"; rexp := 2 |}.
+Proof. repeat split; try discriminate; reflexivity. Qed.
 Example ex_render : strip (s2l "  -0.1234D+05 ") <> [] /\
   norm (strip (s2l "  -0.1234D+05 ")) = canon (Some true) (s2l "0") (s2l "1234") (XLetter (Some false) (s2l "05")) /\
   wf_mant (s2l "0") (s2l "1234") /\ wf_expo (XLetter (Some false) (s2l "05")).
